@@ -178,8 +178,10 @@ bool Units::UnitsImpl::performTestWithHistory(History &history, const UnitsConst
         }
 
         history.push_back(h);
+        bool result = importedUnits->pFunc()->performTestWithHistory(history, importedUnits, type);
+        history.pop_back();
 
-        return importedUnits->pFunc()->performTestWithHistory(history, importedUnits, type);
+        return result;
     }
 
     model = std::dynamic_pointer_cast<libcellml::Model>(mUnits->parent());
